@@ -5,7 +5,7 @@ prop=$1; tier=$2; out=$3; shift 3
 rc=0; parts=()
 for s in "$@"; do
   t=$(mktemp); parts+=("$t")
-  "$HERE/$s.sh" "$prop" "$tier" "$t"; r=$?
+  "$HERE/${s%%:*}.sh" "$prop" "$tier" "$t" $(case "$s" in *:*) echo "${s#*:}";; esac); r=$?
   if [ $r -eq 1 ]; then rc=1; elif [ $r -ne 0 ] && [ $rc -eq 0 ]; then rc=$r; fi
 done
 python3 - "$out" "${parts[@]}" <<'PY'
